@@ -269,6 +269,16 @@ func bufferedCloseRechecksWritable(c *core.Ctx, R string) {
 		}
 	}
 	c.Check(R, polDoClose+"/re-check-writable-after-shouldClose.Store", store.Pos(), ok, "Send(NOOP) on the true edge of a Writable() test that follows the store")
+	// the same handshake with Discard (fix 30b6b67): Discard sets the flag and then takes the pending close; DoClose stores
+	// the pending close and then re-tests the flag — whichever comes second completes it
+	discardedAfter := gAfter(boolCallGuard(true, "transports.(Transport).Discarded", "transports.(*transport).Discarded"), store.Pos())
+	okD := false
+	for _, cl := range u.Calls() {
+		if _, isStar := ast.Unparen(cl.Expr.Fun).(*ast.StarExpr); cl.Callee == nil && isStar && g.Dominates(store.Loc, cl.Loc) && g.GuardedBy(cl.Loc, discardedAfter) {
+			okD = true
+		}
+	}
+	c.Check(R, polDoClose+"/re-check-discarded-after-shouldClose.Store", store.Pos(), okD, "the buffered close is run on the true edge of a Discarded() test that follows the store")
 }
 
 // closedByPacketListener (C03.20 = C02.16 = C07.10) — fix 80da6c5.
@@ -305,6 +315,19 @@ func closedByPacketListener(c *core.Ctx, R string) {
 		}
 		n++
 		c.Check(R, keyf("%s/%s-after-a-state-test-that-follows-emit(packet)", sockOnPacket, cl.Name), cl.Pos(), g.GuardedBy(cl.Loc, after), "a packet listener that closed the session ends the dispatch")
+	}
+	// and the data event is an application callback too: the message event needs a state test of its own (fix 88d2995)
+	var dataEv, msgEv *Ev
+	for _, e := range events(c, u) {
+		if e.Kind == "emit" && e.Event == "data" {
+			dataEv = e
+		}
+		if e.Kind == "emit" && e.Event == "message" {
+			msgEv = e
+		}
+	}
+	if dataEv != nil && msgEv != nil {
+		c.Check(R, sockOnPacket+"/emit(message)-after-a-state-test-that-follows-emit(data)", msgEv.Pos(), g.GuardedBy(msgEv.Loc, gAfter(stateIs(sockStateKeys, "open"), dataEv.Pos())), "a data listener that closed the session ends the dispatch")
 	}
 	c.Need(R, "effects of onPacket after the packet event", n, 5)
 }
@@ -365,6 +388,16 @@ func initialPacketBuffered(c *core.Ctx, R string) {
 			ok = true
 		}
 	}
+	// the caller's options get the buffer too: their reader has been consumed, and another server may be built from them (fix bfb1293)
+	back := false
+	for _, cl := range u.Calls() {
+		if cl.Name == "SetInitialPacket" && cl.Recv != nil && fieldOf(info, cl.Recv) == "" && g.GuardedBy(cl.Loc, notBuffer) {
+			if _, isID := ast.Unparen(cl.Recv).(*ast.Ident); isID {
+				back = true
+			}
+		}
+	}
+	c.Check(R, "engine.(*baseServer).Construct/buffer-stored-on-the-caller's-options-too", u.Pos(), back, "the options value the reader came from holds its content afterwards")
 	c.Check(R, "engine.(*baseServer).Construct/plain-reader→buffer", u.Pos(), ok, "SetInitialPacket(buffer read from the reader) on the edge where the configured value is not a types.BufferInterface")
 }
 
